@@ -52,6 +52,49 @@ def main(n, seed):
     if n and n < len(triples):
         triples = rnd.sample(triples, n)
     fails, evals = [], 0
+    # ---- the public wrapper merge(): loads the three listings from a store, merges, re-digests (every 40th triple) ----
+    import tempfile
+
+    from dvc_objects.fs.local import LocalFileSystem
+
+    from dvc_data.hashfile.db import HashFileDB
+    from dvc_data.hashfile.tree import Tree, merge
+
+    def store(odb, d):
+        t = Tree()
+        for k, (m, h) in d.items():
+            t.add(k, m, h)
+        t.digest()
+        odb.add(t.path, t.fs, t.oid)
+        return t
+
+    with tempfile.TemporaryDirectory(dir="/var/tmp") as tmp:
+        odb = HashFileDB(LocalFileSystem(), os.path.join(tmp, "odb"))
+        for i, (anc, ours, theirs) in enumerate(triples):
+            if i % 40 or not ours or not theirs:
+                continue
+            for allowed in (None, ["add", "remove", "change"]):
+                evals += 1
+                # a stored listing carries hashes only: the reference is the three-way merge of the hash projections
+                hp = lambda d: {k: v[1].value for k, v in d.items()}  # noqa: E731
+                exp_h = three_way(hp(anc), hp(ours), hp(theirs), keys)
+                exp = None if exp_h is None else {k: (None, HashInfo("md5", v)) for k, v in exp_h.items()}
+                ta, to, tt = (store(odb, anc) if anc else None), store(odb, ours), store(odb, theirs)
+                problem = None
+                try:
+                    got = merge(odb, ta.hash_info if ta else None, to.hash_info, tt.hash_info, allowed=allowed)
+                    listing = {k: h.value for k, m, h in got}
+                    if exp_h is None or listing != exp_h:
+                        problem = "merge(): result is not the three-way merge"
+                    elif got.hash_info != store(odb, exp).hash_info:
+                        problem = "merge(): the merged listing does not carry its canonical identifier"
+                except MergeError:
+                    pass
+                except Exception as e:  # noqa: BLE001
+                    problem = f"merge(): {type(e).__name__} escapes instead of a merge error"
+                if problem:
+                    fails.append({"allowed": allowed, "ancestor": sorted(map(str, anc)), "ours": {str(k): str(v[1].value)[:1] + ("x" if v[0].isexec else "") for k, v in ours.items()},
+                                  "theirs": {str(k): str(v[1].value)[:1] + ("x" if v[0].isexec else "") for k, v in theirs.items()}, "problem": problem} if len(fails) < 5 else None)
     for allowed in (None, ["add"], ["add", "remove"], ["add", "remove", "change"]):
         eff = set(allowed or ["add"])
         for anc, ours, theirs in triples:
